@@ -92,6 +92,18 @@ def run(tier, seed, replay):
     sp["what"] = ["tie-break-and-repeated-decorator"]
     specs.append(sp)
     hists.append([{"op": "tagged", "name": "tie"}] + [{"op": "get", "name": n_} for n_ in tie["services"]])
+    # directed: tag names are case-sensitive, also when the tags of one service come from two files
+    f1 = {"services": {"s": {"constructor": "NewA", "tags": [{"name": "Audit", "priority": 5}]}, "t": {"constructor": "NewB", "tags": [{"name": "Audit", "priority": 7}, "audit"]},
+                       "u": {"constructor": "MakeC", "tags": [{"name": "audit", "priority": -1}]}},
+          "decorators": [{"tag": "Audit", "decorator": "Decorate", "arguments": ["upper"]}]}
+    f2 = {"services": {"s": {"tags": [{"name": "audit", "priority": 9}, "AUDIT"]}}, "decorators": [{"tag": "audit", "decorator": "Wrap", "arguments": ["lower"]}]}
+    merged_ct = {"services": {"s": {"constructor": "NewA", "tags": [{"name": "Audit", "priority": 5}, {"name": "audit", "priority": 9}, "AUDIT"]}, "t": f1["services"]["t"], "u": f1["services"]["u"]},
+                 "decorators": f1["decorators"] + f2["decorators"]}
+    sp = common.mk_spec(len(specs), [f1, f2], keep_out=True)
+    sp["cfg"] = merged_ct
+    sp["what"] = ["case-twin-tags/two-files"]
+    specs.append(sp)
+    hists.append([{"op": "tagged", "name": t_} for t_ in ("Audit", "audit", "AUDIT")] + [{"op": "get", "name": n_} for n_ in ("s", "t", "u")])
     # directed: decorators of two tags interleaved in declaration order, on services carrying one, the other or both tags
     import itertools as _it
     for order in (["alpha", "beta", "alpha"], ["beta", "alpha", "beta", "alpha"], ["zeta", "alpha", "zeta"], ["alpha", "alpha", "beta", "alpha"], ["b", "a", "c", "a", "b"]):
